@@ -113,6 +113,31 @@ type TwoOfAKind struct {
 	Q Simple
 }
 
+type OptStruct struct {
+	P *Simple
+	N *Simple
+	Z int64
+}
+type NullStructs struct {
+	L []*Simple
+}
+type UPrefix struct {
+	A *string
+	B *string
+}
+type HasPrefix struct {
+	U   UPrefix
+	V   UPrefix
+	Lvl string
+}
+type MapS struct {
+	Keys   []string
+	Values map[string]Simple
+}
+type HasMapS struct {
+	M MapS
+}
+
 // Swapped / Chain rename fields to names that other fields of the same struct carry.
 type Swapped struct {
 	Src string
@@ -156,6 +181,16 @@ type InferB struct { Other String  Vals [Int] }
 type TwoOfAKind struct { P Simple  Q Simple }
 type ManyOpt struct { A optional Int  B optional Int  C optional Int  D optional Int  E optional Int }
 type ManyOptPairs struct { A optional Int  B optional Int  C optional Int  D optional Int  E optional Int } representation listpairs
+type OptStruct struct { P optional Simple  N nullable Simple  Z Int }
+type NullableSimples [nullable Simple]
+type NullStructs struct { L NullableSimples }
+type StrA string
+type StrB string
+type UPrefix union { | StrA "a:" | StrB "b:" } representation stringprefix
+type Level enum { | Low ("1") | High ("2") } representation int
+type HasPrefix struct { U UPrefix  V UPrefix  Lvl Level }
+type MapS {String:Simple}
+type HasMapS struct { M MapS }
 type Swapped struct { Src String (rename "Dst")  Dst String (rename "Src") }
 type Chain struct { A String (rename "B")  B String (rename "C")  C String (rename "A") }
 type Foo1 struct { A String  N Int }
@@ -257,6 +292,33 @@ var vocab = []vtype{
 		}}},
 	{name: "ManyOpt", schema: "ManyOpt", ptr: func() interface{} { return (*ManyOpt)(nil) }, vals: manyOptVals(false)},
 	{name: "ManyOptPairs", schema: "ManyOptPairs", ptr: func() interface{} { return (*ManyOptPairs)(nil) }, vals: manyOptVals(true)},
+	{name: "OptStruct", schema: "OptStruct", ptr: func() interface{} { return (*OptStruct)(nil) },
+		vals: []func() interface{}{
+			func() interface{} {
+				return &OptStruct{P: &Simple{S: "p", Y: []byte{1}, F: 0.5}, N: &Simple{S: "n", Y: []byte{}, F: 0.25}, Z: 1}
+			},
+			func() interface{} { return &OptStruct{Z: 2} },
+		}},
+	{name: "NullStructs", schema: "NullStructs", ptr: func() interface{} { return (*NullStructs)(nil) },
+		vals: []func() interface{}{
+			func() interface{} {
+				return &NullStructs{L: []*Simple{{S: "a", Y: []byte{}, F: 1.5}, nil, {I: 3, Y: []byte{7}, F: 2.5}}}
+			},
+			func() interface{} { return &NullStructs{L: []*Simple{}} },
+		}},
+	{name: "HasPrefix", schema: "HasPrefix", ptr: func() interface{} { return (*HasPrefix)(nil) },
+		vals: []func() interface{}{
+			func() interface{} { return &HasPrefix{U: UPrefix{A: sp("x")}, V: UPrefix{B: sp("")}, Lvl: "High"} },
+			func() interface{} {
+				return &HasPrefix{U: UPrefix{B: sp("a:tricky")}, V: UPrefix{A: sp("b:")}, Lvl: "Low"}
+			},
+		}},
+	{name: "HasMapS", schema: "HasMapS", ptr: func() interface{} { return (*HasMapS)(nil) },
+		vals: []func() interface{}{
+			func() interface{} {
+				return &HasMapS{M: MapS{Keys: []string{"k2", "k1"}, Values: map[string]Simple{"k2": {S: "two", Y: []byte{}, F: 0.5}, "k1": {I: 1, Y: []byte{1}, F: 1.5}}}}
+			},
+		}},
 	{name: "Swapped", schema: "Swapped", ptr: func() interface{} { return (*Swapped)(nil) },
 		vals: []func() interface{}{func() interface{} { return &Swapped{Src: "from", Dst: "to"} }}},
 	{name: "Chain", schema: "Chain", ptr: func() interface{} { return (*Chain)(nil) },
